@@ -225,7 +225,9 @@ pub fn template(r: &mut Rng, which: usize) -> Tmpl {
             let n2 = *r.pick(&ONE);
             let s1 = *r.pick(&STR_A);
             let s2 = *r.pick(&STR_A);
-            match r.below(12) {
+            match r.below(14) {
+                12 => t("if_same_then_else", "same-else-other-layout", true, format!("if {c} then\n  {b}\n  foo({n1})\nelse\n  {b}\n\n  -- note\n  foo({n1})\nend")),
+                13 => t("if_same_then_else", "same-elseif-split-call", true, format!("if {c} then\n  foo({n1}, {s1})\nelseif {d} then\n  foo({n1},\n    {s1})\nend")),
                 0 => t("if_same_then_else", "same-else", true, format!("if {c} then\n  {b}\nelse\n  {b}\nend")),
                 1 => t("if_same_then_else", "same-else-trivia", true, format!("if {c} then\n  print( 1 , x ) -- c\nelse\n  print(1,x)\nend")),
                 2 => t("if_same_then_else", "same-elseif", true, format!("if {c} then\n  {b}\nelseif {d} then\n  {b}\nend")),
